@@ -14,32 +14,32 @@ def register(reg):
     cfg_bytes = {"config": "any", "content": "bytes"}
     # ------------------------------------------------------------------ JSON
     C("formats.json:JsonConfigFormat.dumps", params=cfg_tree, returns="bytes", modifies=["fresh"], noraise=True,
-      ensures={"C04.encodes-exactly-the-tree-pretty-or-compact": "json_parse(utf8_text(result)) == doc(tree) and is_utf8(result)",
+      ensures={"C04+C02.encodes-exactly-the-tree-pretty-or-compact": "json_parse(utf8_text(result)) == doc(tree) and is_utf8(result)",
                "C04+C13.changes-nothing": PURE})
     C("formats.json:JsonConfigFormat.loads", params=cfg_bytes, returns="ref:dict", modifies=["fresh"],
       requires={"a-map-document": MAPDOC % "json"}, noraise=True,
-      ensures={"C04.decodes-exactly-the-document": "doc(result) == json_parse(utf8_text(content))", "C04.result-is-new": "fresh(result)",
+      ensures={"C04+C02.decodes-exactly-the-document": "doc(result) == json_parse(utf8_text(content))", "C04+C02.result-is-new": "fresh(result)",
                "C04+C13.changes-nothing": PURE})
     # ------------------------------------------------------------------ YAML
     YD = "yaml_parse(utf8_text(result))"
     C("formats.yaml:YamlConfigFormat.dumps", params=cfg_tree, returns="bytes", modifies=["fresh"], noraise=True,
-      ensures={"C04.without-a-root-key-the-document-is-the-tree": "implies(not truthy(self.root_key), %s == doc(tree))" % YD,
-               "C04.a-root-key-wraps-the-tree": "implies(truthy(self.root_key), doc_is_map(%s) and doc_has(%s, self.root_key) and doc_get(%s, self.root_key) == doc(tree))" % (YD, YD, YD),
-               "C04.text-is-utf8": "is_utf8(result)",
+      ensures={"C04+C02.without-a-root-key-the-document-is-the-tree": "implies(not truthy(self.root_key), %s == doc(tree))" % YD,
+               "C04+C02.a-root-key-wraps-the-tree": "implies(truthy(self.root_key), doc_is_map(%s) and doc_has(%s, self.root_key) and doc_get(%s, self.root_key) == doc(tree))" % (YD, YD, YD),
+               "C04+C02.text-is-utf8": "is_utf8(result)",
                "C04+C13.changes-nothing": PURE})
     YC = "yaml_parse(utf8_text(content))"
     C("formats.yaml:YamlConfigFormat.loads", params=cfg_bytes, returns="any", modifies=["fresh"],
       requires={"a-map-document": MAPDOC % "yaml"}, noraise=True,
-      ensures={"C04.a-root-key-that-is-present-is-unwrapped": "implies(truthy(self.root_key) and doc_has(%s, self.root_key), doc(result) == doc_get(%s, self.root_key))" % (YC, YC),
-               "C04.otherwise-the-whole-document": "implies(not (truthy(self.root_key) and doc_has(%s, self.root_key)), doc(result) == %s)" % (YC, YC),
+      ensures={"C04+C02.a-root-key-that-is-present-is-unwrapped": "implies(truthy(self.root_key) and doc_has(%s, self.root_key), doc(result) == doc_get(%s, self.root_key))" % (YC, YC),
+               "C04+C02.otherwise-the-whole-document": "implies(not (truthy(self.root_key) and doc_has(%s, self.root_key)), doc(result) == %s)" % (YC, YC),
                "C04+C13.changes-nothing": PURE})
     # ------------------------------------------------------------------ BSON, pickle
     for mod, cls, lib in (("formats.bson", "BsonConfigFormat", "bson"), ("formats.pickle", "PickleConfigFormat", "pickle")):
         C("%s:%s.dumps" % (mod, cls), params=cfg_tree, returns="bytes", modifies=["fresh"], noraise=True,
-          ensures={"C04.encodes-exactly-the-tree": "%s_parse(result) == doc(tree)" % lib, "C04+C13.changes-nothing": PURE})
+          ensures={"C04+C02.encodes-exactly-the-tree": "%s_parse(result) == doc(tree)" % lib, "C04+C13.changes-nothing": PURE})
         C("%s:%s.loads" % (mod, cls), params=cfg_bytes, returns="ref:dict", modifies=["fresh"],
           requires={"a-map-document": "doc_is_map(%s_parse(content))" % lib}, noraise=True,
-          ensures={"C04.decodes-exactly-the-document": "doc(result) == %s_parse(content)" % lib, "C04.result-is-new": "fresh(result)",
+          ensures={"C04+C02.decodes-exactly-the-document": "doc(result) == %s_parse(content)" % lib, "C04+C02.result-is-new": "fresh(result)",
                    "C04+C13.changes-nothing": PURE})
     # ------------------------------------------------------------------ XML
     TYPE = "(has(result.attrib, 'type') and get(result.attrib, 'type') == '%s')"
@@ -51,17 +51,17 @@ def register(reg):
                   1: {"ele": ELE + " and has(ele.attrib, 'type') and get(ele.attrib, 'type') == 'dict' and ele.text is None", "one-child-per-entry": "len(ele) == I",
                       "frame": "heap_unchanged()"}},
       ensures={
-          "C04.element-is-new-and-named-by-the-key": "fresh(result) and result.tag == key and typeis(result.attrib, 'ref:dict') and fresh(result.attrib)",
-          "C04.str-is-tagged-str": "implies(typeis(value, 'str'), %s and result.text == value and len(result) == 0)" % (TYPE % "str"),
-          "C04.bool-is-tagged-bool-not-int": "implies(typeis(value, 'bool'), %s and result.text == ite(value, 'true', 'false') and len(result) == 0)" % (TYPE % "bool"),
-          "C04.int-is-tagged-int": "implies(typeis(value, 'int') and not typeis(value, 'bool'), %s and result.text == str(value) and len(result) == 0)" % (TYPE % "int"),
-          "C04.float-is-tagged-float": "implies(typeis(value, 'float'), %s and result.text == str(value) and len(result) == 0)" % (TYPE % "float"),
-          "C04.none-is-tagged-none": "implies(value is None, %s and result.text is None and len(result) == 0)" % (TYPE % "none"),
-          "C04.list-has-one-child-per-item": "implies(typeis(value, 'ref:list'), %s and result.text is None and len(result) == len(value))" % (TYPE % "list"),
-          "C04.dict-has-one-child-per-entry": "implies(typeis(value, 'ref:dict'), %s and result.text is None and len(result) == len(value))" % (TYPE % "dict"),
+          "C04+C02.element-is-new-and-named-by-the-key": "fresh(result) and result.tag == key and typeis(result.attrib, 'ref:dict') and fresh(result.attrib)",
+          "C04+C02.str-is-tagged-str": "implies(typeis(value, 'str'), %s and result.text == value and len(result) == 0)" % (TYPE % "str"),
+          "C04+C02.bool-is-tagged-bool-not-int": "implies(typeis(value, 'bool'), %s and result.text == ite(value, 'true', 'false') and len(result) == 0)" % (TYPE % "bool"),
+          "C04+C02.int-is-tagged-int": "implies(typeis(value, 'int') and not typeis(value, 'bool'), %s and result.text == str(value) and len(result) == 0)" % (TYPE % "int"),
+          "C04+C02.float-is-tagged-float": "implies(typeis(value, 'float'), %s and result.text == str(value) and len(result) == 0)" % (TYPE % "float"),
+          "C04+C02.none-is-tagged-none": "implies(value is None, %s and result.text is None and len(result) == 0)" % (TYPE % "none"),
+          "C04+C02.list-has-one-child-per-item": "implies(typeis(value, 'ref:list'), %s and result.text is None and len(result) == len(value))" % (TYPE % "list"),
+          "C04+C02.dict-has-one-child-per-entry": "implies(typeis(value, 'ref:dict'), %s and result.text is None and len(result) == len(value))" % (TYPE % "dict"),
           "C04+C13.changes-nothing": PURE,
       },
-      raises={"C04.only-non-basic-values-are-refused": "exc_is(TypeError)", "C04+C13.changes-nothing": PURE})
+      raises={"C04+C02.only-non-basic-values-are-refused": "exc_is(TypeError)", "C04+C13.changes-nothing": PURE})
     T = "ite(truthy(py_type), py_type, ite(has(ele.attrib, 'type'), get(ele.attrib, 'type'), None))"
     TXT = "ite(truthy(ele.text), ele.text, '')"
     TRUE = "(lower(%s) == 't' or lower(%s) == 'true' or lower(%s) == '1' or lower(%s) == 'on' or lower(%s) == 'yes' or lower(%s) == 'y')" % ((TXT,) * 6)
@@ -70,14 +70,14 @@ def register(reg):
       invariants={0: {"value": "typeis(value, 'ref:list') and fresh(value) and len(value) == I", "frame": "heap_unchanged()"},
                   1: {"value": "typeis(value, 'ref:dict') and fresh(value)", "frame": "heap_unchanged()"}},
       ensures={
-          "C04.str-is-the-text": "implies(%s == 'str', result == %s)" % (T, TXT),
-          "C04.bool-reads-true-and-false-spellings": "implies(%s == 'bool', result == ite(%s, True, ite(%s, False, %s)))" % (T, TRUE, FALSE, TXT),
-          "C04.int-is-parsed-or-kept-as-text": "implies(%s == 'int', result == ite(int_ok(%s), int_parse(%s), %s))" % (T, TXT, TXT, TXT),
-          "C04.float-is-parsed-or-kept-as-text": "implies(%s == 'float', result == ite(float_ok(%s), float_parse(%s), %s))" % (T, TXT, TXT, TXT),
-          "C04.none-is-none": "implies(%s == 'none', result is None)" % T,
-          "C04.list-has-one-item-per-child": "implies(%s == 'list', typeis(result, 'ref:list') and fresh(result) and len(result) == len(ele))" % T,
-          "C04.dict-is-a-new-map": "implies(%s == 'dict', typeis(result, 'ref:dict') and fresh(result))" % T,
-          "C04.unknown-type-is-the-text": "implies(%s != 'str' and %s != 'bool' and %s != 'int' and %s != 'float' and %s != 'none' and %s != 'list' and %s != 'dict', result == %s)" % ((T,) * 7 + (TXT,)),
+          "C04+C02.str-is-the-text": "implies(%s == 'str', result == %s)" % (T, TXT),
+          "C04+C02.bool-reads-true-and-false-spellings": "implies(%s == 'bool', result == ite(%s, True, ite(%s, False, %s)))" % (T, TRUE, FALSE, TXT),
+          "C04+C02.int-is-parsed-or-kept-as-text": "implies(%s == 'int', result == ite(int_ok(%s), int_parse(%s), %s))" % (T, TXT, TXT, TXT),
+          "C04+C02.float-is-parsed-or-kept-as-text": "implies(%s == 'float', result == ite(float_ok(%s), float_parse(%s), %s))" % (T, TXT, TXT, TXT),
+          "C04+C02.none-is-none": "implies(%s == 'none', result is None)" % T,
+          "C04+C02.list-has-one-item-per-child": "implies(%s == 'list', typeis(result, 'ref:list') and fresh(result) and len(result) == len(ele))" % T,
+          "C04+C02.dict-is-a-new-map": "implies(%s == 'dict', typeis(result, 'ref:dict') and fresh(result))" % T,
+          "C04+C02.unknown-type-is-the-text": "implies(%s != 'str' and %s != 'bool' and %s != 'int' and %s != 'float' and %s != 'none' and %s != 'list' and %s != 'dict', result == %s)" % ((T,) * 7 + (TXT,)),
           "C04+C13.changes-nothing": PURE,
       })
     C("formats.xml:XmlConfigFormat._prettify", params={"ele": "ref:Element"}, returns="bytes", modifies=["fresh"], trusted=True, noraise=True,
@@ -86,23 +86,23 @@ def register(reg):
                        "A.changes-nothing": PURE},
       note="ET.tostring + minidom pretty printing: external; assumed well-formed output whose root tag is the element's tag")
     C("formats.xml:XmlConfigFormat.dumps", params=cfg_tree, returns="bytes", modifies=["fresh"],
-      ensures={"C04.document-is-well-formed-under-the-root-tag": "is_utf8(result) and xml_ok(utf8_text(result)) and xml_root_tag(utf8_text(result)) == self.root_tag",
+      ensures={"C04+C02.document-is-well-formed-under-the-root-tag": "is_utf8(result) and xml_ok(utf8_text(result)) and xml_root_tag(utf8_text(result)) == self.root_tag",
                "C04+C13.changes-nothing": PURE},
-      raises={"C04.only-non-basic-values-are-refused": "exc_is(TypeError)", "C04+C13.changes-nothing": PURE})
+      raises={"C04+C02.only-non-basic-values-are-refused": "exc_is(TypeError)", "C04+C13.changes-nothing": PURE})
     C("formats.xml:XmlConfigFormat.loads", params=cfg_bytes, returns="ref:dict", modifies=["fresh"],
-      ensures={"C04.only-a-document-under-the-root-tag-is-decoded": "is_utf8(content) and xml_ok(utf8_text(content)) and xml_root_tag(utf8_text(content)) == self.root_tag",
-               "C04.result-is-a-new-map": "fresh(result)",
+      ensures={"C04+C02.only-a-document-under-the-root-tag-is-decoded": "is_utf8(content) and xml_ok(utf8_text(content)) and xml_root_tag(utf8_text(content)) == self.root_tag",
+               "C04+C02.result-is-a-new-map": "fresh(result)",
                "C04+C13.changes-nothing": PURE},
-      raises={"C04.a-wrong-root-tag-is-rejected-with-ValueError": "implies(is_utf8(content) and xml_ok(utf8_text(content)), exc_is(ValueError) and xml_root_tag(utf8_text(content)) != self.root_tag)",
-              "C04.otherwise-the-bytes-are-not-an-xml-document": "implies(not (is_utf8(content) and xml_ok(utf8_text(content))), exc_is(UnicodeDecodeError) or exc_is(ParseError))",
+      raises={"C04+C02.a-wrong-root-tag-is-rejected-with-ValueError": "implies(is_utf8(content) and xml_ok(utf8_text(content)), exc_is(ValueError) and xml_root_tag(utf8_text(content)) != self.root_tag)",
+              "C04+C02.otherwise-the-bytes-are-not-an-xml-document": "implies(not (is_utf8(content) and xml_ok(utf8_text(content))), exc_is(UnicodeDecodeError) or exc_is(ParseError))",
               "C04+C13.changes-nothing": PURE})
     L = reg.contract
-    L("lemma:c04_xml_scalars_decode_to_themselves", params={"fmt": "ref:XmlConfigFormat", "key": "str", "value": "none|bool|int|str"}, props=("C04",))
-    L("lemma:c04_xml_floats_decode_to_themselves", params={"fmt": "ref:XmlConfigFormat", "key": "str", "value": "float"}, props=("C04",),
+    L("lemma:c04_xml_scalars_decode_to_themselves", params={"fmt": "ref:XmlConfigFormat", "key": "str", "value": "none|bool|int|str"}, props=("C04", "C02"))
+    L("lemma:c04_xml_floats_decode_to_themselves", params={"fmt": "ref:XmlConfigFormat", "key": "str", "value": "float"}, props=("C04", "C02"),
       requires={"not-nan": "not isnan(value)"})
-    L("lemma:c04_xml_root_tag_is_checked", params={"f1": "ref:XmlConfigFormat", "f2": "ref:XmlConfigFormat", "cfg": "any", "tree": "ref:dict"}, props=("C04",))
+    L("lemma:c04_xml_root_tag_is_checked", params={"f1": "ref:XmlConfigFormat", "f2": "ref:XmlConfigFormat", "cfg": "any", "tree": "ref:dict"}, props=("C04", "C02"))
     # ------------------------------------------------------------------ lemmas (ghost clients, props/lemmas/c04.py)
     L = reg.contract
     for lib, cls in (("json", "JsonConfigFormat"), ("yaml", "YamlConfigFormat"), ("bson", "BsonConfigFormat"), ("pickle", "PickleConfigFormat")):
-        L("lemma:c04_%s_decodes_what_it_encoded" % lib, params={"fmt": "ref:" + cls, "cfg": "any", "tree": "ref:dict"}, props=("C04",))
-        L("lemma:c04_%s_options_do_not_matter" % lib, params={"f1": "ref:" + cls, "f2": "ref:" + cls, "cfg": "any", "tree": "ref:dict"}, props=("C04",))
+        L("lemma:c04_%s_decodes_what_it_encoded" % lib, params={"fmt": "ref:" + cls, "cfg": "any", "tree": "ref:dict"}, props=("C04", "C02"))
+        L("lemma:c04_%s_options_do_not_matter" % lib, params={"f1": "ref:" + cls, "f2": "ref:" + cls, "cfg": "any", "tree": "ref:dict"}, props=("C04", "C02"))
